@@ -621,6 +621,27 @@ def run(tier, seed, replay):
                 break
             if abs(g - w_) > 1e-12 * max(1, abs(w_)):
                 v("parsed-value", f"parsed form {parsed!r} of {expr!r} evaluates to {g}, the string to {w_}", {"expr": expr, "parsed": parsed, "t": tt})
+    # arguments whose names are also names of the vocabulary (constants and functions): an argument is an argument
+    for expr_v, args_v in (("sin(pi*t)", {"pi": 3}), ("arg*t + real", {"arg": 2.0, "real": 0.5}), ("norm*exp(1j*arg*t)", {"norm": 2.0, "arg": 0.5}),
+                           ("abs + log*t", {"abs": 1.5, "log": -2.0}), ("imag*t - conj", {"imag": 1 + 2j, "conj": 0.25}), ("cos(w*t) + pi", {"w": 2.0, "pi": 1.0}),
+                           ("e*t", {"e": 4.0}), ("sqrt*sqrt + t", {"sqrt": 3.0})):
+        env_v = dict(cmod.str_env)
+        try:
+            with warnings.catch_warnings():
+                warnings.simplefilter("ignore")
+                c_v = qutip.coefficient(expr_v, args=dict(args_v))
+                other_v = {k_: x_ + 1 for k_, x_ in args_v.items()}
+                for tt in (-0.7, 0.4, 1.3):
+                    rep.evaluations += 1
+                    rep.count("string-vocabulary-named-argument")
+                    for nm_, got_, av_ in (("construction", complex(c_v(tt)), args_v), ("call time", complex(c_v(tt, **other_v)), other_v),
+                                           ("replacement", complex(c_v.replace_arguments(other_v)(tt)), other_v)):
+                        want_ = complex(eval(expr_v, env_v, dict(av_, t=tt)))
+                        if abs(got_ - want_) > 1e-12 * max(1, abs(want_)):
+                            v("string-vocabulary-named-argument", f"string coefficient {expr_v!r} with arguments {av_} (given at {nm_}) gives {got_} at t={tt}, the expression with these arguments evaluates to {want_}", {"expr": expr_v, "args": {k: str(x) for k, x in av_.items()}})
+                            break
+        except Exception as e:
+            v("string-vocabulary-named-argument:raises", f"string coefficient {expr_v!r} with arguments {args_v}: {type(e).__name__}: {e}"[:200], {"expr": expr_v})
     # ---- model correspondence
     model = core.run_driver(lines)
     ndis, first = 0, None
